@@ -57,7 +57,7 @@ func init() {
 		Level: "fault_enumeration",
 		Rule: "key lengths 0..64 against each of the three AES-CBC descriptors (only the negotiated size accepted); for the accepted size: key patterns × every plaintext length 0..80 (thorough: 0..4096) × content patterns × every answer vector of the scripted random source (full/zero/0xFF/short/error per read) with <= 2 (quick) / 3 (thorough) deviations, i.e. failure and short read at every read index; " +
 			"explicit-state search over one cipher object with ops Encrypt(p_i), Decrypt(c_j), Decrypt(bad_k) to closure, and two objects with the same key interleaved; Decrypt negatives: all lengths 0..96 and, per block-aligned length, the last block built with the reference cipher so that the recovered pad-length octet takes all 256 values. " +
-			"Oracle: Decrypt(Encrypt(p)) = p; |c| = 16+16k with n < 16k <= n+256; reference CBC decryption of c[16:] under c[:16] gives p‖pad‖(16k−n−1); IV is made of octets the source served, IVs pairwise distinct across calls and objects on the non-repeating stream; >= 16 octets of the source consumed per encryption (cumulatively: a prefetching pool is allowed); source failure → error and no ciphertext; bad ciphertext → error, never a panic; every op on a used object behaves as on a fresh object. distinct_nontrivial = distinct (key, plaintext, environment) encryptions verified against the reference",
+			"Oracle: Decrypt(Encrypt(p)) = p; |c| = 16+16k with n < 16k <= n+256; reference CBC decryption of c[16:] under c[:16] gives p‖pad‖(16k−n−1); IV is made of octets the source served, IVs pairwise distinct across calls and objects on the non-repeating stream; >= 16 octets of the source consumed per encryption (cumulatively: a prefetching pool is allowed); source failure → error and no ciphertext; bad ciphertext → error, never a panic; every op on a used object behaves as on a fresh object. Keys and results as callers hold them: three objects made from one key buffer that is refilled between the NewCrypto calls each encrypt under the key they were given; six ciphertexts of one plaintext length (0..80, thorough 0..1200) stay unchanged when the caller appends to the others; Decrypt(Encrypt(Encrypt(p))) on one object returns the inner ciphertext. distinct_nontrivial = distinct (key, plaintext, environment) encryptions verified against the reference",
 		Assumptions: []string{"the AES block function is a shared trusted primitive; CBC chaining, padding and IV handling are independent"},
 		Run:         runC10,
 		Replay: func(c *engine.Ctx, raw json.RawMessage) {
@@ -70,6 +70,8 @@ func init() {
 				c10Hooks(c, cs)
 			case "keysize":
 				c10KeySize(c, cs.Desc, cs.KeyLen)
+			case "results":
+				c10Results(c, cs.Desc, cs.N)
 			case "encrypt":
 				c10Encrypt(c, cs, engine.NewReplayRun(cs.Env))
 			case "encrypt-seq":
@@ -290,6 +292,13 @@ func runC10(c *engine.Ctx) {
 		maxN, bound = 4096, 3
 	}
 	for d := 0; d < 3; d++ {
+		for n := 0; n <= 80 || (c.Thorough() && n <= 1200); n++ {
+			if c.Mine() {
+				c10Results(c, d, n)
+			}
+		}
+	}
+	for d := 0; d < 3; d++ {
 		for n := 0; n <= maxN; n++ {
 			if !c.Mine() {
 				continue
@@ -405,6 +414,102 @@ func runC10(c *engine.Ctx) {
 			c.Count("history_searches_depth_bounded", 1)
 		}
 	}
+}
+
+// c10Results: how callers hold keys and results. (a) The caller keeps its keys in one buffer that it refills for
+// the next SA: three objects are made from that buffer with three different contents, and afterwards each must
+// still encrypt under the key it was given. (b) Ciphertexts are the caller's: appending to one (encryptMsg appends
+// the checksum to what Encrypt returned) or overwriting it must not change another one, nested encryption
+// Encrypt(Encrypt(p)) must decrypt layer by layer, and Decrypt results must not change when later calls run.
+func c10Results(c *engine.Ctx, d, n int) {
+	c.Evals++
+	cs := c10Case{K: "results", Desc: d, KeyLen: ref.EncrKeyLens[d], N: n}
+	kl := ref.EncrKeyLens[d]
+	et := encr.StrToType(univ.EncrName(kl))
+	seam := engine.NewSeam(nil, nil)
+	seam.Stream = uint64(1000 + n)
+	restore := engine.Install(seam)
+	defer restore()
+	buf := make([]byte, kl)
+	var keys [][]byte
+	var objs []ikeCrypto.IKECrypto
+	for kp := 0; kp < 3; kp++ {
+		k := univ.Pat(kl, 90+kp+n)
+		keys = append(keys, k)
+		copy(buf, k)
+		var cr ikeCrypto.IKECrypto
+		var err error
+		if pi := engine.Catch(func() { cr, err = et.NewCrypto(buf) }); pi != nil || err != nil {
+			c.Violate("right-key-size-refused", fmt.Sprintf("NewCrypto with a key in a reused caller buffer: %v %v", pi, err), cs)
+			return
+		}
+		objs = append(objs, cr)
+	}
+	for i := range buf {
+		buf[i] = 0xee
+	}
+	p := c10Plain(n, 2)
+	type res struct{ ct, keep []byte }
+	var rs []res
+	pi := engine.Catch(func() {
+		for i, cr := range objs {
+			for rep := 0; rep < 2; rep++ {
+				ct, err := cr.Encrypt(append([]byte(nil), p...))
+				if err != nil {
+					c.Violate("spurious-error", fmt.Sprintf("Encrypt(%d octets): %v", n, err), cs)
+					return
+				}
+				pt := ref.CBCDecrypt(keys[i], ct[:16], ct[16:])
+				if len(pt) < n+1 || !bytes.Equal(pt[:n], p) || int(pt[len(pt)-1]) != len(pt)-n-1 {
+					c.Violate("not-textbook-cbc/key-from-reused-caller-buffer", fmt.Sprintf("object %d of 3 made from one key buffer that the caller refilled: its ciphertext is not AES-CBC-%d under the key it was given", i+1, kl*8), cs)
+					return
+				}
+				rs = append(rs, res{ct, append([]byte(nil), ct...)})
+			}
+		}
+	})
+	if pi != nil {
+		c.Violate(pi.Sig(), "Encrypt panics: "+pi.Value, cs)
+		return
+	}
+	if len(rs) != 6 {
+		return
+	}
+	// the caller appends to / overwrites the results it holds, oldest first; every other result stays what it was
+	for i := range rs {
+		grown := append(rs[i].ct, univ.Fill(40, 0xa5)...)
+		_ = grown
+		for j := range rs {
+			if j != i && !bytes.Equal(rs[j].ct, rs[j].keep) {
+				c.Violate("ciphertexts-share-memory", fmt.Sprintf("plaintext %d octets: appending 40 octets to ciphertext %d changes ciphertext %d (returned by another Encrypt call)", n, i+1, j+1), cs)
+				return
+			}
+		}
+	}
+	// nested encryption on one object: Decrypt(Encrypt(Encrypt(p))) is the inner ciphertext
+	var inner, innerKeep, outer, back, back2 []byte
+	var err error
+	if pi := engine.Catch(func() {
+		if inner, err = objs[0].Encrypt(append([]byte(nil), p...)); err != nil {
+			return
+		}
+		innerKeep = append([]byte(nil), inner...)
+		if outer, err = objs[0].Encrypt(inner); err != nil {
+			return
+		}
+		if back, err = objs[0].Decrypt(outer); err != nil {
+			return
+		}
+		back2, err = objs[0].Decrypt(append([]byte(nil), back...))
+	}); pi != nil {
+		c.Violate(pi.Sig(), "nested Encrypt / Decrypt panics: "+pi.Value, cs)
+		return
+	}
+	if err != nil || !bytes.Equal(back, innerKeep) || !bytes.Equal(back2, p) {
+		c.Violate("not-inverse/nested", fmt.Sprintf("plaintext %d octets: Decrypt(Encrypt(Encrypt(p))) is not Encrypt(p) as it was returned (%v)", n, err), cs)
+		return
+	}
+	c.Count("result_memory_cases", 1)
 }
 
 func c10KeySize(c *engine.Ctx, d, kl int) {
